@@ -142,7 +142,7 @@ impl Prop for C07 {
                             extra: vec![],
                             players: vec![],
                             teams: vec![],
-                            challenge: "9182736".into(),
+                            challenge: s.challenge.clone(),
                         };
                         let mut srv = Gs3Server::new(dummy, vec![]);
                         srv.payload = [0xFF, 0xFF, 0xFF, 0x02];
